@@ -1,41 +1,50 @@
 PROP = dict(
-    drivers=['BinFormats'],
-        gens=['xb', 'binfmt'],
+    drivers=['BinFormats', 'BinLayers'],
+        gens=['xb', 'binfmt', 'comp'],
         lake=['IcyVerif.Props.C05'],
         ns='IcyVerif.C05',
-        theorems=['xb_rt', 'bin_rt', 'adf_rt', 'idf_rt', 'tnd_rt_partial', 'rt_nosauce_partial', 'samePicture_checks',
-                  'resave_stable_partial', 'tnd_wide_violates', 'fake_sauce_violates'],
+        theorems=['xb_rt', 'bin_rt', 'adf_rt', 'idf_rt', 'tnd_rt', 'rt_nosauce_partial', 'tail_guard_of_signature', 'tail_cut_when_guard_fails',
+                  'samePicture_checks', 'resave_stable_partial', 'resave_bin_partial', 'resave_adf_partial', 'resave_xb_partial',
+                  'resave_idf_partial', 'resave_tnd_partial', 'xb_loader_range', 'sauce_texts_rt', 'sauce_title_equal', 'bin_font_by_name_rt', 'layers_rt', 'layers_picture', 'layers_single',
+                  'tnd_wide_holds', 'fake_sauce_violates', 'resave_bin_height0_violates', 'resave_tnd_height0_violates'],
         harness='c05',
         design='DESIGN.md §4 C05',
         thorough_exhaustive=True,
         technique='Lean 4 proof, per format, that load (save pic) shows the same picture for EVERY representable picture: '
                   'sequential set_char/advance_pos placement into an empty layer by induction over rows and over the cells of a row; '
                   'attribute byte as_u8/from_u8 (and XBin 512-character mode) by 256-entry tables (decide) lifted to all cells; 6-bit '
-                  'palette codec and the EGA register table of ADF by a generic "set then get" lemma; SAUCE record written by '
-                  'write_sauce_info found by extract with header length 129; XBin image data through the C06 theorem '
-                  'loader_reads_same_pairs; iCE Draw run-length coding by induction over the row with the writer\'s three cases (plain '
-                  'pair, 01 00 repeat, fake repeat); Tundra by a joint writer/loader invariant (the loader\'s running colour indices denote '
-                  'the colours of the writer\'s running attribute; palettes only grow) by induction over the cell stream. Constants '
-                  '(header sizes and bytes, command codes, limits, EGA offsets, DOS/EGA palettes, default font, SAUCE layout) are '
-                  'regenerated from the source. Byte-exact differential correspondence of the writers, cell-exact of the loaders, on '
-                  'engine-written and mutated files.',
-        rule='cases: whole pictures (format x ice mode x width x height x SAUCE x compression x palette x font table x cells) saved and loaded '
-             'by the real crate; fixed witnesses (heights 1,3,10,24,25,26,40; characters 0..7 incl. the IDF escape pair; bold on bright colours; '
-             'two-font XBin; Tundra palettes with duplicates / non-black colour 0 / widths 1000 and 1001; picture content that reads as SAUCE), '
-             'exhaustive small pictures over a 4-cell alphabet, seeded random pictures (mostly inside, partly outside the representable '
-             'domain), 1-3 mutations of every engine-written file (byte/bit changes, truncation, cut, insert, swap, SAUCE removal); '
-             'distinct_nontrivial = distinct pictures',
-        modelled='XBin/Bin/Artworx/IceDraw/TundraDraw to_bytes and load_buffer, Buffer::from_bytes (SauceData::extract as far as it decides '
-                 'the data length, size and ice flag; Buffer::set_sauce(resize)), write_sauce_info for a buffer without SAUCE data, '
-                 'Layer::set_char/set_height, Line::set_char, crop_loaded_file, Buffer::get_char of a one-layer buffer, Palette::from_63/'
-                 'as_vec_63/fill_to_16/is_default/insert_color_rgb/get_rgb, from_ega_data/to_ega_data, TextAttribute::as_u8/from_u8 (all three '
-                 'modes), analyze_font_usage, BitFont::is_default by name; XBin image data, encode_attr, decode_char reused from C06',
+                  'palette codec and the EGA register table of ADF by a generic "set then get" lemma; the SAUCE trailer through the C11 '
+                  'theorems (extract after write_sauce_info returns exactly what the variant carries, for every content and all '
+                  'metadata); XBin image data through the C06 theorem loader_reads_same_pairs; iCE Draw run-length coding by induction '
+                  'over the row; Tundra by a joint writer/loader invariant by induction over the cell stream. RE-SAVE STABILITY for every '
+                  'accepted byte string: the RANGE of each loader is characterised (an invariant of the cells a layer can hold, kept by '
+                  'set_char / placement / crop / the Tundra command loop by induction over the byte stream; palette and font blocks; the '
+                  'SAUCE data extract returns) and shown to lie in the domain of the save->load theorems; where a writer refuses a loaded '
+                  'picture (BIN odd / >510 wide, IDF >200 rows) that is proved as the other half. Buffers with several layers: the '
+                  'writers read get_char only (translator guard), the composited picture (C13 model) is a picture like any other. '
+                  'Constants, tables (CRC row, font checksums and names, SAUCE fonts, palettes, default font) are regenerated from the '
+                  'source. Byte-exact differential correspondence of the writers (also of RE-SAVED files), cell-exact of the loaders, on '
+                  'engine-written, mutated and foreign files.',
+        rule='cases: whole pictures (format x ice mode x width x height x SAUCE x compression x palette x font table x SAUCE data x cells) '
+             'saved and loaded by the real crate; fixed witnesses (heights 1..40, characters 0..7, bold on bright colours, two-font XBin, '
+             'Tundra palettes / widths 1000 and 1001, picture content that reads as SAUCE); exhaustive small pictures over a 4-cell alphabet; '
+             'seeded random pictures; buffers with 1..3 layers (offsets, alpha channel, hidden, Chars/Attributes layers); 1-3 mutations of '
+             'every engine-written file; FOREIGN files (every header field free, XBin runs of all kinds, iCE Draw repeat records, Tundra '
+             'position/colour commands, foreign SAUCE trailers with comments and font names) loaded, re-saved, loaded; guess_font_name on all '
+             '58 built-in fonts (+ one byte altered), from_sauce_name on all names and near misses; distinct_nontrivial = distinct pictures',
+        modelled='XBin/Bin/Artworx/IceDraw/TundraDraw to_bytes and load_buffer; Buffer::from_bytes with SauceData::extract and '
+                 'Buffer::write_sauce_info INCLUDING title/author/group/comments/display flags of the buffer (C11 model); '
+                 'Buffer::set_sauce (resize, ice, BitFont::from_sauce_name on the regenerated table of the 16 SAUCE fonts with their glyphs, '
+                 'the stored record); guess_font_name (CRC-32 checksum table of the 58 built-in fonts, the localized unknown-font name); '
+                 'Layer::set_char/set_height, Line::set_char, crop_loaded_file; Buffer::get_char of a one-layer buffer and — through C13\'s '
+                 'compositor model — of a layer stack; Palette::from_63/as_vec_63/fill_to_16/is_default/insert_color_rgb/get_rgb, '
+                 'from_ega_data/to_ega_data, TextAttribute::as_u8/from_u8, analyze_font_usage, BitFont::is_default by name; XBin image '
+                 'data, encode_attr, decode_char reused from C06',
         not_modelled='chrono date parsing (stand-in dateOk: 8 digits, real month/day; mutations leave the date field alone), '
-                     'BitFont::from_sauce_name (the harness never names a font like a SAUCE font), guess_font_name beyond the default font '
-                     '(only visible in the SAUCE record of a re-saved file), SAUCE comments/title/author/group contents, ColorOptimizer '
-                     '(lossless options only), buffers with several layers, characters above 255 beyond the Err they cause, XBin streams '
-                     'cut right after a Char/Attr/Full run header (C02 changes that site from panic to accept: skipped), pictures of more '
-                     'than 60000 cells in the cell digest (sizes are still compared)',
+                     'ColorOptimizer (lossless options only), characters above 255 beyond the Err they cause, the half-block classifier of '
+                     'make_solid_color (layered cases use no transparent colours; C13 owns it), pictures of more than 60000 cells or 4000 '
+                     'rows in the cell digest (sizes are still compared; the model\'s row access is linear in the row number), XBin streams '
+                     'cut right after a Char/Attr/Full run header (skipped)',
         assumptions=['chrono accepts every date string dateOk accepts (the dates the engine writes are such strings; exercised on every run)',
                      'Err and panic of a loader are both "rejected" for this property (C02 turns the panics into Err)'],
     )
